@@ -11,14 +11,14 @@ CLAIMED = {
          'Sampled, not exhaustive; slack 64 eps sigma_max(L) sqrt(d) sum|diffs| + 1e-150.', '4/C01'),
  'C02': ('Hypothesis differential between all views of the metric and a long-double reference ||L(u-v)||',
          'Exploration: generated models x query pools x representations; seven views and M = L^T L compared with a rounding bound derived from sigma_max(L).',
-         'Long-double reference evaluation by the harness; tolerance 64 eps sigma_max sqrt(d) scale.', '4/C02'),
+         'Long-double reference evaluation by the harness; tolerance 64 eps sigma_max sqrt(d) scale; near-duplicate pairs, float16 / float32 / integer representations and mixed-dtype calls of the metric function.', '4/C02'),
  'C03': ('exhaustive enumeration of the documented option product per Hypothesis-drawn dataset, postcondition oracle',
          'Exploration with an exhaustively enumerated finite sub-space: every documented option combination of every estimator is fitted on several generated well-formed datasets and the shape/dtype/PSD/n_features_in_/transform postconditions are checked.',
          'Datasets are sampled; SDML RuntimeError is a specified outcome; one recorded known finding (ITML on large-scale data).', '4/C03'),
- 'C04': ('Hypothesis tuples with forced ties and threshold-operation histories vs decisions recomputed from public pair_distance',
+ 'C04': ('Hypothesis tuples with forced ties and threshold-operation histories vs decisions recomputed from pair_distance, which is itself compared with an independent double-precision Mahalanobis distance (float32 / far-scale pools)',
          'Exploration: exact equality of predict/decision_function/score with decisions recomputed from pair_distance, brute-force AUC, threshold histories (set/calibrate/refit), ties and distance==threshold cases forced by the generator.',
-         'Oracle uses the public pair_distance on same-length batches.', '4/C04'),
- 'C05': ('Hypothesis differential: estimator fed indices+preprocessor vs identical estimator fed formed arrays (bitwise)',
+         'Decision oracle uses the public pair_distance on same-length batches; the distance oracle is sqrt(|L(x-x\')|^2) in float64 on the same coordinate values.', '4/C04'),
+ 'C05': ('Hypothesis differential: estimator fed indices+preprocessor vs identical estimator fed formed arrays (bitwise), including refits / recalibrations through one refilled index buffer',
          'Exploration: 17 estimators x 3 preprocessor kinds x 8 index dtypes x all data-taking methods, bitwise differential; call counter for formed data; raising preprocessor -> PreprocessorError.',
          'LFDA compared up to eigenvector sign (ARPACK random start).', '4/C05'),
  'C06': ('exhaustive enumeration of a malformation grammar + Hypothesis-placed malformations + array-like equivalence differential (atheris fuzz target in the thorough tier)',
@@ -32,7 +32,7 @@ CLAIMED = {
          '1e-9 guard band on min_rate comparisons.', '4/C16'),
  'C18': ('exhaustive enumeration of (estimator, parameter, value kind) cells + Hypothesis set_params/clone/pickle/fit sequences against a dict model',
          'Exploration with an exhaustively enumerated cell space: identity of stored parameters, defaults of the others, clone/pickle equality, deprecated aliases, NotFittedError for every method; generated histories compared with Est(**final_params).fit.',
-         'Value kinds are six representatives per parameter.', '4/C18'),
+         'Value kinds are representatives per parameter; sequences also set array-valued init / prior / basis as plain, Fortran, float32, integer, read-only and ndarray-subclass arrays whose bytes are re-checked after every step.', '4/C18'),
  'C20': ('Hypothesis-drawn spectra with the asserted clause chosen from the computed spectrum; priors/inits observed through zero-update fits and compared with an independent construction',
          'Exploration: thousands of symmetric matrices per run (every rank, near-PSD inside/outside tolerance, indefinite, 14 decades) through components_from_metric with L^T L = M / NonPSDError / ValueError oracles; prior and init options observed on fitted models that perform no update (LSML tol=1e10, ITML with inactive bounds, MMC diagonal max_iter=0, LMNN max_iter=0, NCA/MLKR with zero L-BFGS iterations).',
          'A boundary band around the tolerance is not asserted; pca/lda compared up to row sign.', '4/C20'),
@@ -44,13 +44,13 @@ CLAIMED = {
          'LFDA weighted scaling asserted up to a common eigenvalue shift (DESIGN section 5).', '4/C09'),
  'C10': ('captured optimiser objective (rebinding scipy minimize / wrapping LMNN._loss_grad) vs explicit-loop documented objective, analytic derivative and central differences at Hypothesis-generated L',
          'Exploration: NCA, MLKR, LMNN value and gradient at generated transformations (incl. low rank), descent, accepted-iterate monotonicity from the verbose trace, zero-iteration initialisation.',
-         'Evaluation points are sampled; finite differences only away from hinge kinks.', '4/C10'),
+         'Evaluation points are sampled; finite differences only away from hinge kinks; one LMNN shard with a class of 513-560 members uses a vectorised evaluation of the same documented objective.', '4/C10'),
  'C11': ('per-instance KKT certificate from frame-observed dual variables on Hypothesis-generated pair sets / priors / bounds / budgets',
          'Exploration: ITML and ITML_Supervised; stationarity of M^-1 - M0^-1, slack stationarity, dual feasibility for every budget; primal feasibility and complementary slackness when converged; prior returned when feasible.',
          'Dual variables read from the _fit frame (sys.setprofile); ill-conditioned projections (kappa > 1e6) are inconclusive / known finding KF1.', '4/C11'),
  'C12': ('own evaluation of the documented LSML objective and gradient, own descent from the returned matrix, weight-scaling metamorphic relation',
          'Exploration: LSML and LSML_Supervised on generated quadruplets, priors, weights (array, list, integer, scaled), tol, max_iter; descent from the prior, stationarity within tol on early stop, no better point found by an independent descent, weights semantics.',
-         'tol >= 1e-5; convexity of the objective assumed for the global-minimiser clause.', '4/C12'),
+         'tol >= 1e-5; convexity of the objective assumed for the global-minimiser clause; one recorded known finding (KF4: line-search stall before max_iter, decided by a predicate on the harness\' own gradient and objective).', '4/C12'),
  'C13': ('differential against an own ADMM graphical-lasso solver + sub-gradient (KKT) certificate on Hypothesis-generated pairs / priors / balance / sparsity',
          'Exploration: SDML and SDML_Supervised inside the positive-definite margin (objective gap, KKT) and beyond it (RuntimeError or finite PSD matrix only).',
          'scikit-learn non-convergence warnings and reference non-convergence are inconclusive.', '4/C13'),
